@@ -334,6 +334,7 @@ type shapeEval struct {
 	descMemo map[types.Object]*Shape
 	busy     map[string]bool
 	methods  map[*types.Func]*methInfo
+	inlining int
 }
 
 type methInfo struct {
@@ -427,6 +428,28 @@ func (se *shapeEval) intExpr(env *intEnv, e ast.Expr) (Poly, bool) {
 					return sh.N, true
 				}
 				return nil, false
+			}
+		}
+		// a plain function of the same package that only computes a value (straight-line assignments and a return):
+		// read as the returned expression with the arguments in place of the parameters
+		if f := calleeFunc(info, x); f != nil && f.Pkg() == env.pk.Types && se.inlining < 3 {
+			if mi := se.methods[f]; mi != nil && mi.fd.Body != nil && mi.fd.Recv == nil {
+				senv := symEnv{}
+				i := 0
+				for _, fl := range mi.fd.Type.Params.List {
+					for _, nm := range fl.Names {
+						if i < len(x.Args) {
+							senv[info.Defs[nm]] = x.Args[i]
+						}
+						i++
+					}
+				}
+				if _, ret, ok := symRun(info, mi.fd.Body.List, senv); ok && ret != nil && i == len(x.Args) {
+					se.inlining++
+					p, ok := se.intExpr(env, ret)
+					se.inlining--
+					return p, ok
+				}
 			}
 		}
 		return nil, false
@@ -761,6 +784,24 @@ func singleReturnCall(fd *ast.FuncDecl) (*ast.CallExpr, []ast.Stmt) {
 	r, ok := last.(*ast.ReturnStmt)
 	if !ok || len(r.Results) != 1 {
 		return nil, nil
+	}
+	// `if recv != nil { return <call> }; return <what a nil receiver stands for>`: the nil guard written the other
+	// way round; the method's work is the guarded return
+	if n := len(fd.Body.List); n >= 2 && fd.Recv != nil && len(fd.Recv.List) == 1 && len(fd.Recv.List[0].Names) == 1 {
+		if ifs, ok := fd.Body.List[n-2].(*ast.IfStmt); ok && ifs.Else == nil && ifs.Init == nil && len(ifs.Body.List) == 1 {
+			if be, ok := ast.Unparen(ifs.Cond).(*ast.BinaryExpr); ok && be.Op == token.NEQ {
+				rn := fd.Recv.List[0].Names[0].Name
+				isR := func(e ast.Expr) bool { id, ok := ast.Unparen(e).(*ast.Ident); return ok && id.Name == rn }
+				isNil := func(e ast.Expr) bool { id, ok := ast.Unparen(e).(*ast.Ident); return ok && id.Name == "nil" }
+				if (isR(be.X) && isNil(be.Y)) || (isR(be.Y) && isNil(be.X)) {
+					if r2, ok := ifs.Body.List[0].(*ast.ReturnStmt); ok && len(r2.Results) == 1 {
+						if call, ok := ast.Unparen(r2.Results[0]).(*ast.CallExpr); ok {
+							return call, fd.Body.List[:n-2]
+						}
+					}
+				}
+			}
+		}
 	}
 	call, ok := ast.Unparen(r.Results[0]).(*ast.CallExpr)
 	if !ok {
